@@ -201,6 +201,10 @@ func (v *inputFieldDefaultInjectionVisitor) jsonWalker(fieldType int, defaultVal
 	i := 0
 	listOfList := typeDoc.TypeIsList(typeDoc.Types[fieldType].OfType)
 	return func(value []byte, dataType jsonparser.ValueType, offset int, err error) {
+		// every element occupies a position, whatever happens to it below (also when an error
+		// ends its processing early): take the index now and keep it in step with the array
+		idx := i
+		i++
 		if err != nil {
 			return
 		}
@@ -210,7 +214,7 @@ func (v *inputFieldDefaultInjectionVisitor) jsonWalker(fieldType int, defaultVal
 				return
 			}
 			if replaced {
-				*finalVal, err = jsonparser.Set(defaultValue, newVal, fmt.Sprintf("[%d]", i))
+				*finalVal, err = jsonparser.Set(defaultValue, newVal, fmt.Sprintf("[%d]", idx))
 				defaultValue = *finalVal
 				if err != nil {
 					return
@@ -223,20 +227,14 @@ func (v *inputFieldDefaultInjectionVisitor) jsonWalker(fieldType int, defaultVal
 				return
 			}
 			if replaced {
-				*finalVal, err = jsonparser.Set(defaultValue, newVal, fmt.Sprintf("[%d]", i))
+				*finalVal, err = jsonparser.Set(defaultValue, newVal, fmt.Sprintf("[%d]", idx))
 				defaultValue = *finalVal
 				if err != nil {
 					return
 				}
 				*finalValueReplaced = true
 			}
-		} else {
-			// nothing to inject for this element (null or a mismatching kind), but it still
-			// occupies a position: keep the index in step with the array
-			i++
-			return
 		}
-		i++
 	}
 
 }
